@@ -471,6 +471,11 @@ func TestVerifC18(t *testing.T) {
 		r.Validated += res.Execs
 		for _, v := range res.Violations {
 			parts := strings.SplitN(v.Msg, "\x00", 2)
+			if len(parts) < 2 {
+				// not a verdict of c18Judge: the rule panicked / the explorer reported the execution itself
+				r.Violation("failure", vTrunc(v.Msg, 600)+" | case "+c.Desc+" needs="+fmt.Sprint(c.Needs)+" map choices="+fmt.Sprint(v.Choices), c)
+				continue
+			}
 			r.Violation(parts[0], parts[1]+" | case "+c.Desc+" needs="+fmt.Sprint(c.Needs)+" map choices="+fmt.Sprint(v.Choices), c)
 		}
 		cls := "acyclic"
